@@ -768,6 +768,14 @@ func (self PathNode) marshal(p *thrift.BinaryProtocol, opts *Options) error {
 
 // resetPathNodeSlots clears the path and node of every slot within the capacity of con,
 // since they may keep the values of a previous Load(). The Next buffers are kept for reuse.
+// setNode stores val in the slot and forgets the children loaded for the value the slot held before: they are not
+// val's children, and the by-hash lookups probe the whole capacity of Next
+func (self *PathNode) setNode(val Node) {
+	self.Node = val
+	resetPathNodeSlots(self.Next)
+	self.Next = self.Next[:0]
+}
+
 func resetPathNodeSlots(con []PathNode) {
 	con = con[:cap(con)]
 	for i := range con {
@@ -995,8 +1003,7 @@ func (self *PathNode) SetByStr(key string, val Node, opts *Options) (bool, error
 		// TODO: cap may change after Set. Use better way to store hash size
 		if N > 0 && cap(self.Next) >= N {
 			if s := getStrHash(&self.Next, key, N); s != nil {
-				s.Node = val
-				s.Next = s.Next[:0]
+				s.setNode(val)
 				return true, nil
 			}
 		}
@@ -1005,8 +1012,7 @@ func (self *PathNode) SetByStr(key string, val Node, opts *Options) (bool, error
 	for i := range self.Next {
 		v := &self.Next[i]
 		if v.Path.t == PathStrKey && v.Path.str() == key {
-			v.Node = val
-			v.Next = v.Next[:0]
+			v.setNode(val)
 			return true, nil
 		}
 	}
@@ -1067,8 +1073,7 @@ func (self *PathNode) SetByInt(key int, val Node, opts *Options) (bool, error) {
 		N := n * 2
 		if N > 0 && cap(self.Next) >= N {
 			if s := getIntHash(&self.Next, uint64(key), N); s != nil {
-				s.Node = val
-				s.Next = s.Next[:0]
+				s.setNode(val)
 				return true, nil
 			}
 		}
@@ -1077,8 +1082,7 @@ func (self *PathNode) SetByInt(key int, val Node, opts *Options) (bool, error) {
 	for i := range self.Next {
 		v := &self.Next[i]
 		if v.Path.t == PathIntKey && v.Path.int() == key {
-			v.Node = val
-			v.Next = v.Next[:0]
+			v.setNode(val)
 			return true, nil
 		}
 	}
@@ -1133,8 +1137,7 @@ func (self *PathNode) SetField(id thrift.FieldID, val Node, opts *Options) (bool
 	if opts.StoreChildrenById && int(id) <= StoreChildrenByIdShreshold && int(id) >= 0 && int(id) < len(self.Next) {
 		// NOTICE: the slot may be a hole, or be used by another field if the tree was not loaded by id
 		if v := &self.Next[id]; v.Path.t == PathFieldId && v.Path.id() == id {
-			v.Node = val
-			v.Next = v.Next[:0]
+			v.setNode(val)
 			return true, nil
 		}
 	}
@@ -1142,16 +1145,14 @@ func (self *PathNode) SetField(id thrift.FieldID, val Node, opts *Options) (bool
 	for i := StoreChildrenByIdShreshold; i < len(self.Next); i++ {
 		v := &self.Next[i]
 		if v.Path.t == PathFieldId && v.Path.id() == id {
-			v.Node = val
-			v.Next = v.Next[:0]
+			v.setNode(val)
 			return true, nil
 		}
 	}
 	for i := 0; i < len(self.Next) && i < StoreChildrenByIdShreshold; i++ {
 		v := &self.Next[i]
 		if v.Path.t == PathFieldId && v.Path.id() == id {
-			v.Node = val
-			v.Next = v.Next[:0]
+			v.setNode(val)
 			return true, nil
 		}
 	}
